@@ -155,6 +155,10 @@ def _set_sites():
         if isinstance(e, ast.Attribute) and isinstance(e.value, ast.Name) and e.value.id == "self" and ("self." + e.attr) in setnames:
             return True
         if isinstance(e, ast.BinOp) and isinstance(e.op, (ast.BitOr, ast.BitAnd, ast.Sub, ast.BitXor)):
+            def view(x):   # dict views combine into a set: d.keys() & e.keys()
+                return isinstance(x, ast.Call) and isinstance(x.func, ast.Attribute) and x.func.attr in ("keys", "items")
+            if view(e.left) or view(e.right):
+                return True
             return is_set_expr(e.left, setnames) and is_set_expr(e.right, setnames)
         if isinstance(e, ast.Call) and isinstance(e.func, ast.Attribute) and e.func.attr in ("union", "intersection", "difference", "symmetric_difference", "copy") and is_set_expr(e.func.value, setnames):
             return True
